@@ -14,6 +14,10 @@ TB = "Trusted base: rustc/cargo, the harness (reference models, error models of 
 CHECKS = {
  "C01": ("runtime monitoring: model-based oracle (VecDeque) over every Window observer at every ring phase of every capacity, unique labels; unsafe build with bounds hook; Miri",
          "Exploration with complete enumeration of the finite dimensions: all capacities 0..=254 x every ring phase x every observer (incl. every consumed prefix of both iterators in thorough), rebuild paths (from_parts at every index, serde, From<Vec>/From<Box>), adversarial serialized forms; re-run on the unsafe_performance build with the bounds hook and under Miri for small capacities. Right level: the state space of a Window with labelled elements is finite and small, so observing every reachable (capacity, phase) state decides the property for the code as built.", "§4 C01"),
+ "C02": ("runtime monitoring: reference-model oracle - naive from-scratch evaluation (compensated sums, f64) of each documented formula on the real input history, two-sided comparison within an a-priori error model (DESIGN 3.2)",
+         "Exploration: 19 sliding-window methods x every length 1..=254 x 2 stream classes rotated by seed (all 10 classes at 24 stratified lengths; thorough: all classes x all lengths x 3000 steps) x 600 steps incl. the warm-up region; Conv over 4 weight families. Classes: positive, signed, plateaus, spikes with scale jumps 1e-6..1e6 (and rare 1e-40/1e15 scales), ramps, tie-heavy alphabets with signed zeros, exact dyadic grid (where every running sum is exact, so any drift is a logic error), volatile->flat->volatile, constant, large mean with tiny variance. Evidence reports max observed error/radius per method (typically < 0.1) and exempt-step counts. Re-run on the unsafe_performance build.", "§4 C02"),
+ "C03": ("runtime monitoring: reference-model oracle - the documented recurrences run in f64 alongside the real instance, radius following the same contraction as the value",
+         "Exploration: EMA/DMA/TMA/DEMA/TEMA/RMA/WSMA/TSI/Vidya/TR/cumulative Integral and ADI at every length (TSI: sampled (short,long) pairs) on the ten stream classes, HeikinAshi's open/close recursion on five candle classes. The radius of the recursive references decays with the signal (e' = (1-a)e + C eps(|x|+|y|)), so a guard that swallows small denominators or a stale state after a flat stretch is outside the allowance; Vidya's no-movement rule is checked exactly on dyadic streams.", "§4 C03"),
  "C04": ("runtime monitoring: exact model oracle (max/min/age of newest extremum/median of the model window, ==) on exhaustive short sequences over tie/signed-zero alphabets and hostile streams for every length; unsafe build with bounds hook; Miri",
          "Exploration with exhaustive sub-spaces: all 4^9 (4^11) sequences over three 4-symbol alphabets ({-0,+0,1,2}, {0,1,2,3}, {-1,-0,+0,1}) for every length 1..=6 - the selection algorithms only compare, so this enumerates every order/tie/zero-sign pattern around short windows - plus plateau/tie/grid/ramp/mixed-sign streams for every length 1..=254. No tolerance. Re-run on the unsafe_performance build (SMM's raw copy under the bounds hook) and a reduced set under Miri.", "§4 C04"),
  "C08": ("runtime monitoring: metamorphic oracle (no reference) - constant input => constant output without drift; leading copies of the first element => same later outputs; for every method x every length and every indicator x generated configurations",
